@@ -33,12 +33,12 @@ def combineProbes (addpath : Bool) : List Entry → ODec
   | [] => .ents []
   | e :: rest =>
       match e.nlri with
-      | .opq _ (.ents l) =>
+      | .opq _ (.ents l) _ =>
           (match combineProbes addpath rest with
            | .ents l2 => .ents (l.map (fun x => ((if addpath then e.pid else x.1), x.2)) ++ l2)
            | r => r)
-      | .opq _ .err => .err
-      | .opq _ .panic => .panic
+      | .opq _ .err _ => .err
+      | .opq _ .panic _ => .panic
       | .ip .. => .err
 
 /-- Slices of `es` of the given lengths. -/
